@@ -130,7 +130,9 @@ class ScaleMonitor:
                 self.rec.count("trace_pairs_checked_monotone", max(0, len(ev) - 1))
                 for (x1, v1), (x2, v2) in zip(ev, ev[1:]):
                     if x2 == x1:
-                        if v1 != v2:
+                        # (the same number handed over as a Python float, a NumPy scalar or a 0-d array may go through
+                        # different but equally valid power / log routines: equal to a few units in the last place)
+                        if abs(v1 - v2) > 4 * np.finfo(float).eps * max(abs(v1), abs(v2)):
                             self._viol(name, params, direction, "determinism", x1, "same argument gave %r and %r" % (v1, v2))
                         continue
                     gap = x2 - x1
@@ -203,8 +205,20 @@ def run_case(case, rec, mon=None):
                 # a whole number of Hertz handed over as an integer type
                 arg = as_int(j // 2, int(f))
                 rec.count("integer_typed_arguments")
+            if j % 7 == 3:
+                arg = np.array(f)  # the number as a 0-d array: still one real number, and the caller's own object
+                rec.count("zero_dimensional_array_arguments")
             s = sc.hertz_to_scale(arg)
+            if isinstance(arg, np.ndarray) and float(arg) != f:
+                rec.violation({"what": "%s.hertz_to_scale changed the 0-d array it was given (%r -> %r)" % (name, f, float(arg)), "check": "argument_modified", "cls": name,
+                               "params": params, "arg": f, "case": case})
+            if j % 7 == 3:
+                s = np.array(float(s))
+                s0 = float(s)
             f2 = sc.scale_to_hertz(s)
+            if j % 7 == 3 and float(s) != s0:
+                rec.violation({"what": "%s.scale_to_hertz changed the 0-d array it was given (%r -> %r)" % (name, s0, float(s)), "check": "argument_modified", "cls": name,
+                               "params": params, "arg": s0, "case": case})
             rec.count("roundtrips_f_s_f")
             if not abs(float(f2) - f) <= RT * max(1.0, abs(f)):
                 rec.violation({"what": "%s: scale_to_hertz(hertz_to_scale(%r)) = %r" % (name, f, float(f2)), "check": "roundtrip_fsf",
